@@ -28,6 +28,12 @@ def build_world(rng, w, n_states=1, calls_per_action=2, noise=True, name="dom", 
     if hints and hints.get("distinct_calls"):
         # one more object per parameter of the focus action, so that calls with pairwise different arguments exist
         objs = objs + [("ox%d" % i, t) for i, (_, t) in enumerate(focus[0]["params"])]
+    if hints:
+        # every quantified type of the shape has an object; every parameter of the focus action has a candidate
+        objs = objs + [("oq%d" % i, t) for i, t in enumerate(hints.get("need_types", []))]
+        for i, (_, t) in enumerate(focus[0]["params"]):
+            if not isinstance(t, list) and not any(w.is_sub(ot, t) for _, ot in objs + list(w.consts)):
+                objs = objs + [("op%d" % i, t)]
     tree = C.domain_tree(w, rng, name)
     text = C.render2(tree, rng) if noise == 2 else G.render(tree, rng, noise)
     probes = []
@@ -142,6 +148,10 @@ def run(args):
     standard_proof_part(rep, PROP)
     rng = random.Random(args.seed * 104729 + 1)
     planted, shaped = {}, {}
+    # the generator of near-duplicate texts follows the library's own tolerance and printing precisions
+    ccfg = run_impl([{"op": "c01.config"}], nproc=1)[0]
+    if "epsilon" in ccfg:
+        C.configure(float.fromhex(ccfg["epsilon"]), ccfg["condition_digits"], ccfg["digits"])
     if args.replay:
         data = json.load(open(args.replay))
         worlds = [data["input"]["world"]]
@@ -250,7 +260,7 @@ def run(args):
     stats["named_by_property"] = {name: {k: planted.get(k, 0) for k in kinds} for name, kinds in C.NAMED_BY_PROPERTY.items()}
     cov["input_distribution"] = stats
     cov["hash_seeds"] = hashseeds
-    cov["numeric_config"] = cfg
+    cov["numeric_config"] = dict(cfg, **{k: v for k, v in ccfg.items() if k == "condition_digits"})
     cov["exhaustive"] = False
     cov["rule"] = ("worlds = findings' witnesses + generated typed domains (<=4 types in any declaration order, constants, 2-4 predicates, <=3 "
                    "functions, 1-3 actions; and/or/not/=/forall/comparison preconditions, add/del/assign/increase/decrease/when/forall-when effects), "
